@@ -54,8 +54,9 @@ class Interpreter:
         :param code: Michelson code
         """
         result = InterpreterResult(stdout=[])
-        stack_backup = deepcopy(self.stack)
-        context_backup = deepcopy(self.context)
+        # copy the context and the stack in one pass, so that big_maps on the restored stack
+        # refer to the restored context rather than to the abandoned one
+        context_backup, stack_backup = deepcopy((self.context, self.stack))
 
         try:
             code_section = CodeSection.match(michelson_to_micheline(code))
